@@ -12,6 +12,7 @@
 //! trusted: R15 (deep slice): ClaimablePayments::begin_claiming_payment: the custom-TLV refusal test verbatim (the `.iter().any(|(typ, _)| P)` becomes an index loop carrying P, R6)
 //! assume: representation invariant of an accumulating payment: the intended sum already held is < MAX_VALUE_MSAT, every part's intended value < MAX_VALUE_MSAT, the sum of received values fits u64; cltv_expiry >= HTLC_FAIL_BACK_BUFFER (implied by acceptance)
 //! trusted: assume_specification for core::cmp::max / core::cmp::min (std definitions): present in every unit so that a change that introduces them is verified instead of being rejected by the tool
+//! trusted: sweeps: R15 (deep slices): timer_tick_occurred: the closures handed to `claimable_payments.retain` and to `awaiting_trampoline_forwards.retain` verbatim as functions of one payment and the failure list; do_chain_event: the closure of the inner `payment.htlcs.retain` as a function of one part, and the keep-expression of the outer retain (MppPart::check_onchain_timeout, proved above, is a stub answering the uninterpreted reached_onchain_deadline; `V.drain(..).map(|c| c.prev_hop).collect()` is the wrapper drain_prev_hops) (std's retain keeps the entries for which it answers true); R5: the call of check_mpp_timeout (proved above on the real function) is a stub answering the uninterpreted times_out of the parts before the tick and changing nothing but the tick counters; R6: `OUT.extend(V.drain(..).map(|h| E))` is an index loop over the drained elements carrying E verbatim; skeleton types are Copy
 use vstd::prelude::*;
 // R6: the quantifier of `E.iter().any(..)` / `E.iter().all(..)` selects which of the two accumulated answers is the result
 macro_rules! iter_quantifier { (any, $some:expr, $every:expr) => { $some }; (all, $some:expr, $every:expr) => { $every }; }
@@ -503,6 +504,147 @@ pub struct FinalOnionHopData { pub payment_secret: PaymentSecret, pub total_msat
     expiry + 7200 < highest_seen_timestamp
 //@end
 
+// ---- the periodic and per-block sweeps: a payment that timed out is failed back in ALL its parts, one that did not keeps all of them ----
+pub mod sweeps {
+use vstd::prelude::*;
+#[derive(Copy)] pub struct PaymentHash(pub [u8; 32]);
+#[derive(Copy)] pub struct PrevHop { pub id: u64 }
+#[derive(Clone, Copy)] pub struct Part { pub prev_hop: PrevHop, pub cltv_expiry: u32, pub value: u64, pub timer_ticks: u8 }
+#[derive(Clone, Copy)] pub struct Claimable { pub mpp_part: Part }
+pub struct Fields { pub total_mpp_amount_msat: u64 }
+pub struct ClaimablePayment { pub htlcs: Vec<Claimable>, pub onion_fields: Fields }
+pub struct TrampolinePayment { pub htlcs: Vec<Part>, pub onion_fields: Fields }
+pub enum HTLCSource { PreviousHopData(PrevHop), TrampolineForward { previous_hop_data: Vec<PrevHop>, outbound_payment: Option<u8> } }
+pub enum HTLCHandlingFailureType { Receive { payment_hash: PaymentHash }, TrampolineForward {} }
+// the decision of check_mpp_timeout (proved on the real function above) for the parts as they are before the tick
+pub uninterp spec fn times_out(parts: Seq<Part>, total: u64) -> bool;
+pub open spec fn parts_of(h: Seq<Claimable>) -> Seq<Part> { h.map_values(|c: Claimable| c.mpp_part) }
+pub open spec fn same_parts_modulo_ticks(a: Seq<Part>, b: Seq<Part>) -> bool {
+    a.len() == b.len() && forall|k: int| 0 <= k < a.len() ==> (#[trigger] a[k]).prev_hop == b[k].prev_hop && a[k].cltv_expiry == b[k].cltv_expiry && a[k].value == b[k].value
+}
+// R5: `check_mpp_timeout(payment.htlcs.iter_mut().map(|htlc| &mut htlc.mpp_part), &payment.onion_fields)`
+#[verifier::external_body] pub fn check_mpp_timeout_of_claimable(htlcs: &mut Vec<Claimable>, onion_fields: &Fields) -> (r: bool)
+    ensures r == times_out(parts_of(old(htlcs)@), onion_fields.total_mpp_amount_msat), same_parts_modulo_ticks(parts_of(final(htlcs)@), parts_of(old(htlcs)@)) { unimplemented!() }
+// R5: `check_mpp_timeout(payment.htlcs.iter_mut(), &payment.onion_fields)`
+#[verifier::external_body] pub fn check_mpp_timeout_of_parts(htlcs: &mut Vec<Part>, onion_fields: &Fields) -> (r: bool)
+    ensures r == times_out(old(htlcs)@, onion_fields.total_mpp_amount_msat), same_parts_modulo_ticks(final(htlcs)@, old(htlcs)@) { unimplemented!() }
+// R6: `V.drain(..)`: the elements in order, the vector left empty
+#[verifier::external_body] pub fn drain_all<T>(v: &mut Vec<T>) -> (r: Vec<T>) ensures r@ == old(v)@, final(v)@.len() == 0 { unimplemented!() }
+pub open spec fn receive_failure(h: Claimable, hash: PaymentHash) -> (HTLCSource, PaymentHash, HTLCHandlingFailureType) {
+    (HTLCSource::PreviousHopData(h.mpp_part.prev_hop), hash, HTLCHandlingFailureType::Receive { payment_hash: hash })
+}
+//@extract lightning/src/ln/channelmanager.rs :: impl ChannelManager :: fn timer_tick_occurred
+//@slice R15
+    self.claimable_payments.lock().unwrap().claimable_payments.retain( |payment_hash, payment| { if payment.htlcs.is_empty() { debug_assert!(false); return false; } let mpp_timeout = check_mpp_timeout( payment.htlcs.iter_mut().map(|htlc| &mut htlc.mpp_part), &payment.onion_fields, ); if $c:cond { timed_out_mpp_htlcs.extend(payment.htlcs.drain(..).map(|h| { $t:any })); } return $keep:seq; }, );
+//@with
+    fn payment_kept_by_the_timer_tick(payment_hash: &PaymentHash, payment: &mut ClaimablePayment, timed_out_mpp_htlcs: &mut Vec<(HTLCSource, PaymentHash, HTLCHandlingFailureType)>) -> bool {
+        if payment.htlcs.is_empty() { debug_assert!(false); return false; }
+        let ghost before = payment.htlcs@; let ghost out0 = timed_out_mpp_htlcs@;
+        let mpp_timeout = check_mpp_timeout_of_claimable(&mut payment.htlcs, &payment.onion_fields);
+        if $c {
+            // R6: `OUT.extend(V.drain(..).map(|h| E))` as an index loop over the drained elements carrying E verbatim
+            let __d = drain_all(&mut payment.htlcs); let mut __k: usize = 0;
+            while __k < __d.len()
+                invariant __k <= __d@.len(), timed_out_mpp_htlcs@.len() == out0.len() + __k, timed_out_mpp_htlcs@.take(out0.len() as int) == out0,
+                    forall|j: int| 0 <= j < __k ==> timed_out_mpp_htlcs@[out0.len() + j] == receive_failure(#[trigger] __d@[j], *payment_hash),
+                decreases __d@.len() - __k
+            { let h = __d[__k]; timed_out_mpp_htlcs.push($t); __k = __k + 1; }
+            proof {
+                assert(parts_of(__d@).len() == parts_of(before).len());
+                assert forall|j: int| 0 <= j < before.len() implies receive_failure(__d@[j], *payment_hash) == receive_failure(#[trigger] before[j], *payment_hash) by {
+                    assert(parts_of(__d@)[j].prev_hop == parts_of(before)[j].prev_hop);
+                }
+            }
+        }
+        return $keep; }
+//@ret r
+//@requires
+    old(payment).htlcs@.len() > 0,
+//@ensures P C04 a-payment-that-timed-out-incomplete-is-failed-back-in-every-part-and-forgotten-and-one-that-did-not-keeps-every-part
+    r == !times_out(parts_of(old(payment).htlcs@), old(payment).onion_fields.total_mpp_amount_msat),
+    r ==> final(timed_out_mpp_htlcs)@ == old(timed_out_mpp_htlcs)@ && same_parts_modulo_ticks(parts_of(final(payment).htlcs@), parts_of(old(payment).htlcs@)),
+    !r ==> final(payment).htlcs@.len() == 0 && final(timed_out_mpp_htlcs)@.len() == old(timed_out_mpp_htlcs)@.len() + old(payment).htlcs@.len()
+        && final(timed_out_mpp_htlcs)@.take(old(timed_out_mpp_htlcs)@.len() as int) == old(timed_out_mpp_htlcs)@
+        && forall|j: int| 0 <= j < old(payment).htlcs@.len() ==> final(timed_out_mpp_htlcs)@[old(timed_out_mpp_htlcs)@.len() + j] == receive_failure(#[trigger] old(payment).htlcs@[j], *payment_hash),
+//@mutant timed_out_payment_kept_in_the_map
+    return !mpp_timeout;
+//@with
+    return true;
+//@mutant parts_failed_back_although_the_payment_did_not_time_out
+    if mpp_timeout { timed_out_mpp_htlcs.extend(
+//@with
+    if !mpp_timeout { timed_out_mpp_htlcs.extend(
+//@end
+// R6: `V.drain(..).map(|claimable| claimable.prev_hop).collect()`
+#[verifier::external_body] pub fn drain_prev_hops(v: &mut Vec<Part>) -> (r: Vec<PrevHop>)
+    ensures final(v)@.len() == 0, r@.len() == old(v)@.len(), forall|k: int| 0 <= k < r@.len() ==> r@[k] == (#[trigger] old(v)@[k]).prev_hop { unimplemented!() }
+//@extract lightning/src/ln/channelmanager.rs :: impl ChannelManager :: fn timer_tick_occurred
+//@slice R15
+    self.awaiting_trampoline_forwards.lock().unwrap().retain(|payment_hash, payment| { if payment.htlcs.is_empty() { debug_assert!(false); return false; } let mpp_timeout = check_mpp_timeout(payment.htlcs.iter_mut(), &payment.onion_fields); if $c:cond { let previous_hop_data = payment.htlcs.drain(..).map(|claimable| claimable.prev_hop).collect(); $push:straight } $keep:seq });
+//@with
+    fn trampoline_accumulation_kept_by_the_timer_tick(payment_hash: &PaymentHash, payment: &mut TrampolinePayment, timed_out_mpp_htlcs: &mut Vec<(HTLCSource, PaymentHash, HTLCHandlingFailureType)>) -> bool {
+        if payment.htlcs.is_empty() { debug_assert!(false); return false; }
+        let ghost before = payment.htlcs@;
+        let mpp_timeout = check_mpp_timeout_of_parts(&mut payment.htlcs, &payment.onion_fields);
+        let ghost after = payment.htlcs@;
+        if $c { let previous_hop_data = drain_prev_hops(&mut payment.htlcs);
+            proof { assert forall|k: int| 0 <= k < previous_hop_data@.len() implies previous_hop_data@[k] == (#[trigger] before[k]).prev_hop by { assert(after[k].prev_hop == before[k].prev_hop); } }
+            $push }
+        $keep }
+//@ret r
+//@requires
+    old(payment).htlcs@.len() > 0,
+//@ensures P C04 a-trampoline-accumulation-that-timed-out-incomplete-is-failed-back-to-every-previous-hop-and-forgotten
+    r == !times_out(old(payment).htlcs@, old(payment).onion_fields.total_mpp_amount_msat),
+    r ==> final(timed_out_mpp_htlcs)@ == old(timed_out_mpp_htlcs)@ && same_parts_modulo_ticks(final(payment).htlcs@, old(payment).htlcs@),
+    !r ==> final(payment).htlcs@.len() == 0 && final(timed_out_mpp_htlcs)@.len() == old(timed_out_mpp_htlcs)@.len() + 1
+        && final(timed_out_mpp_htlcs)@.drop_last() == old(timed_out_mpp_htlcs)@
+        && (final(timed_out_mpp_htlcs)@.last().0 matches HTLCSource::TrampolineForward { previous_hop_data, outbound_payment }
+            && previous_hop_data@.len() == old(payment).htlcs@.len() && (forall|k: int| 0 <= k < previous_hop_data@.len() ==> previous_hop_data@[k] == (#[trigger] old(payment).htlcs@[k]).prev_hop))
+        && final(timed_out_mpp_htlcs)@.last().1 == *payment_hash,
+//@mutant timed_out_accumulation_kept_in_the_map
+    timed_out_mpp_htlcs.push(( HTLCSource::TrampolineForward { previous_hop_data, outbound_payment: None }, *payment_hash, HTLCHandlingFailureType::TrampolineForward {}, )); } !mpp_timeout
+//@with
+    timed_out_mpp_htlcs.push(( HTLCSource::TrampolineForward { previous_hop_data, outbound_payment: None }, *payment_hash, HTLCHandlingFailureType::TrampolineForward {}, )); } true
+//@end
+// ---- new blocks: each part of a claimable payment that reached its on-chain deadline is failed back and dropped, the others stay ----
+pub struct FailReason { pub value: u64, pub height: u32 }
+#[verifier::external_body] pub fn invalid_payment_err_data(value: u64, height: u32) -> (r: (u64, u32)) ensures r == (value, height) { unimplemented!() }
+pub enum LocalHTLCFailureReason { PaymentClaimBuffer, MPPTimeout }
+pub struct HTLCFailReason { pub reason: LocalHTLCFailureReason, pub data: (u64, u32) }
+impl HTLCFailReason { #[verifier::external_body] pub fn reason(reason: LocalHTLCFailureReason, data: (u64, u32)) -> (r: HTLCFailReason) ensures r.reason == reason, r.data == data { unimplemented!() } }
+impl Part { #[verifier::external_body] pub fn check_onchain_timeout(&self, height: u32) -> (r: bool) ensures r == reached_onchain_deadline(*self, height) { unimplemented!() } }
+impl Clone for PrevHop { #[verifier::external_body] fn clone(&self) -> (r: Self) ensures r == *self { unimplemented!() } }
+impl Clone for PaymentHash { #[verifier::external_body] fn clone(&self) -> (r: Self) ensures r == *self { unimplemented!() } }
+// the decision of MppPart::check_onchain_timeout (proved on the real function above)
+pub uninterp spec fn reached_onchain_deadline(p: Part, height: u32) -> bool;
+//@extract lightning/src/ln/channelmanager.rs :: impl ChannelManager :: fn do_chain_event
+//@slice R15
+    self.claimable_payments.lock().unwrap().claimable_payments.retain( |payment_hash, payment| { payment.htlcs.retain(|htlc| { $body:any }); $keep:seq }, );
+//@with
+    fn claimable_part_kept_past_this_block(htlc: &Claimable, payment_hash: &PaymentHash, height: u32, timed_out_htlcs: &mut Vec<(HTLCSource, PaymentHash, HTLCFailReason, HTLCHandlingFailureType)>) -> bool { $body }
+//@ret r
+//@ensures P C04,C08 a-part-of-a-claimable-payment-that-reached-its-on-chain-deadline-is-failed-back-and-dropped-and-no-other
+    r == !reached_onchain_deadline(htlc.mpp_part, height),
+    r ==> final(timed_out_htlcs)@ == old(timed_out_htlcs)@,
+    !r ==> final(timed_out_htlcs)@.len() == old(timed_out_htlcs)@.len() + 1 && final(timed_out_htlcs)@.drop_last() == old(timed_out_htlcs)@
+        && final(timed_out_htlcs)@.last().0 == HTLCSource::PreviousHopData(htlc.mpp_part.prev_hop) && final(timed_out_htlcs)@.last().1 == *payment_hash
+        && final(timed_out_htlcs)@.last().2.reason == LocalHTLCFailureReason::PaymentClaimBuffer,
+//@mutant part_past_its_deadline_kept_without_failing_it_back
+    !htlc_timed_out }); !payment.htlcs.is_empty()
+//@with
+    true }); !payment.htlcs.is_empty()
+//@end
+//@extract lightning/src/ln/channelmanager.rs :: impl ChannelManager :: fn do_chain_event
+//@slice R15
+    self.claimable_payments.lock().unwrap().claimable_payments.retain( |payment_hash, payment| { payment.htlcs.retain(|htlc| { $body:any }); $keep:seq }, );
+//@with
+    fn claimable_payment_kept_past_this_block(payment: &ClaimablePayment) -> bool { $keep }
+//@ret r
+//@ensures P C04,C08 a-claimable-payment-stays-known-exactly-while-a-part-of-it-is-left
+    r == (payment.htlcs@.len() > 0),
+//@end
+}
 // (P) the two conditions "match exactly" (the code comments demand it): a set is complete for check_incoming_mpp_part
 // iff check_mpp_timeout can no longer time it out
 pub proof fn lemma_complete_iff_cannot_time_out(parts: Seq<MppPart>, total: u64)
